@@ -321,7 +321,16 @@ CLAIMED["C09"] = (
     "on the real objects for the whole property table (~110 properties x every object of a generated deck and of corpus "
     "decks): getter after setter within the quantum, every sibling getter before / after, rejection with TypeError / "
     "ValueError and an unchanged reading for out-of-domain values, None -> documented default, same readings after save + "
-    "re-open.",
+    "re-open.  ColorFormat as a state machine (Model/Color, Props/C09C: the colour element of any of the six kinds with its "
+    "transform children in document order; rgb / theme_color / brightness assignments): after rgb = v the colour is RGB v, "
+    "after theme_color = t it is theme colour t with no rgb; an element of the same kind keeps every transform child (the "
+    "brightness reads as before), any other is replaced by an empty one (brightness 0); a brightness assignment is refused "
+    "exactly without a colour element or outside [-1, 1], an accepted one keeps kind, value and every transform the library "
+    "does not know, in order, and reads back as the stored form of the value (within half of 1/100000) whatever lumMod / "
+    "lumOff children - any number, anywhere - were there; after ANY history kind and value are those of the last rgb / theme "
+    "assignment, unknown transforms are the start colour's or dropped all together.  Compared with the real ColorFormat of "
+    "fonts, fills, lines, gradient stops and pattern colours after every assignment of seeded histories from foreign start "
+    "states (stored element and the four readers, through a proxy held from the start and through a new one).",
     "Property table and domains are written by hand from the docstrings (trusted input); couplings documented by the "
     "library are excepted from independence; floats are dyadic rationals in the exact comparison.  Seven enum-alias "
     "findings (shared with C20) are listed.",
